@@ -311,7 +311,12 @@ fn gen_string(r: &mut Rng) -> String {
     match r.below(10) {
         0 | 1 | 2 => format!("\"{}\"", r.pick(&plain)),
         3 | 4 => format!("'{}'", r.pick(&plain)),
-        5 => (*r.pick(&["\"x\\\"y\"", "'x\"y'", "\"x'y\"", "\"\\\\n\"", "'\\n'", "\"\\110\""])).to_owned(),
+        5 => (*r.pick(&[
+            "\"x\\\"y\"", "'x\"y'", "\"x'y\"", "\"\\\\n\"", "'\\n'", "\"\\110\"",
+            // quote characters at the edges of the content
+            "\"'count'\"", "'\"count\"'", "\"count'\"", "'\"step'", "\"`count`\"", "[['count']]", "[[\"step\"]]", "\" count\"", "\"count \"",
+        ]))
+        .to_owned(),
         6 | 7 => format!("[[{}]]", r.pick(&["count", "step", "a b", "", "10", "abc", "x\"y", "x'y"])),
         8 => format!("[=[{}]=]", r.pick(&["count", "step", "]]", "10", ""])),
         _ => format!("[==[{}]==]", r.pick(&["count", "a]=]b", "10"])),
@@ -523,6 +528,7 @@ pub fn run(args: &Args, out: &mut Out) {
             must_use: false,
         });
         let calls: Vec<String> = [
+            "fn(\"'count'\")", "fn('\"count\"')", "fn(\"count'\")", "fn([['count']])", "fn \"'step'\"", "fn(\"`step`\")", "fn(\" count\")",
             "fn(\"count\")", "fn('count')", "fn([[count]])", "fn([=[count]=])", "fn[[count]]", "fn\"count\"", "fn(\"whoops\")",
             "fn([[whoops]])", "fn()", "fn(nil, 1)", "fn(\"step\", \"x\")", "fn(\"count\" .. x)",
         ]
